@@ -1,0 +1,9 @@
+//go:build verif
+
+package admin
+
+import "net/http"
+
+// This file only exists under the 'verif' build tag.
+
+func (s *Server) VerifHandler() http.Handler { return s.httpServer.Handler }
